@@ -58,3 +58,10 @@ Theorem C08_function_body_sees_constants s x v :
   sget x (global_scope s) = Some v -> v_const v = true -> get_visible s x = Some v.
 Proof. exact (function_body_sees_constants s x v). Qed.
 Print Assumptions C08_function_body_sees_constants.
+
+(* a block opened in a subroutine body resolves every name exactly as the body does *)
+Theorem C08_block_in_body_reads_as_body s x :
+  in_function s = true -> scopes s <> [] ->
+  get_visible (push_scope (push_ctx CBlock s)) x = get_visible s x.
+Proof. exact (block_in_function_reads_as_body s x). Qed.
+Print Assumptions C08_block_in_body_reads_as_body.
